@@ -208,10 +208,10 @@ HookFailed ==
               keyUsed, wrote, postOps, snapshot, clock, lastFail, attempts, succeeded>>)
 
 (* request_certificate returned.                                                 *)
-ReqEnd(ok, status) ==
+ReqEnd(ok, status, carries) ==
     /\ result' = [done |-> TRUE, ok |-> ok, status |-> status, hf |-> result.hf]
     /\ phase' = "reqdone"
-    /\ bad' = Chk("C07_FailureCarriesError", ok \/ (status # "" /\ status # "success" /\ status # "none"))
+    /\ bad' = Chk("C07_FailureCarriesError", ok \/ (status # "" /\ status # "success" /\ status # "none" /\ carries))
          \cup Chk("C07_HookFailureFailsAttempt", result.hf => ~ok)     \* a hook that ended badly (exit code or signal) without allow_failure is a failed step
     /\ Keep(<<cfg, keyFile, certFile, reached, authz, authzSeen, hooksRun, cleanDue, csr, served,
               keyUsed, wrote, postOps, snapshot, clock, lastFail, attempts, succeeded>>)
@@ -288,7 +288,7 @@ MCSleepAfterFail ==
     /\ "RequeueImmediately" \notin Deviations
     /\ Sleep(1000) /\ UNCHANGED pc
 
-FailNow(status) == ReqEnd(FALSE, status) /\ SetPc("postop")
+FailNow(status) == ReqEnd(FALSE, status, TRUE) /\ SetPc("postop")
 
 MCOrder == /\ phase = "running" /\ Pc = "order"
            /\ \/ (NewOrder(CfgIds) /\ SetPc("authz"))
@@ -366,7 +366,7 @@ MCInstall == /\ phase = "running" /\ Pc \in {"install", "install_junk"}
                 ELSE /\ FileWritten("crt", IF Pc = "install" THEN Crt(csr.spki, served)
                                             ELSE [Garbage EXCEPT !.sha = served])
                      /\ SetPc("ok")
-MCOk == /\ phase = "running" /\ Pc = "ok" /\ ReqEnd(TRUE, "success") /\ SetPc("postop")
+MCOk == /\ phase = "running" /\ Pc = "ok" /\ ReqEnd(TRUE, "success", TRUE) /\ SetPc("postop")
 MCPostOp == /\ phase = "reqdone" /\ PostOperation(result.ok, result.status, keyFile, certFile) /\ UNCHANGED pc
 MCEnd == /\ phase = "postop" /\ AttemptEnd(result.ok, 0) /\ SetPc("idle")
 
